@@ -815,7 +815,8 @@ def run(prop, tier):
             files = [{"name": n, "before": p["files"][n], "after": after[n], "expect": expect.get(n, p["files"][n])} for n in sorted(p["files"])]
             w = p["opts"]
             recs.append({"id": rid, "kind": "cmd", "outcome": outcome, "parseError": not o["ok"],
-                         "cfgBeyond": w["lm"] + w["cm"] > 65535 or w["indent"] * 16 > 65535,     # some width the layout needs is beyond the limit "panicWidth": "Formatting argument out of range" in proc.stderr,
+                         "cfgBeyond": w["lm"] + w["cm"] > 65535 or w["indent"] * 16 > 65535,   # a width the layout needs is beyond the limit
+                        "panicWidth": "Formatting argument out of range" in proc.stderr,
                          "cwd": p["cwd"], "decoy": p["decoy"], "files": files,
                          "others": [{"name": n, "before": others[n], "after": oafter[n]} for n in sorted(others)]})
             cmd_meta[rid] = {"project": {k: (v if k != "files" else {n: t[:2000] for n, t in v.items()}) for k, v in p.items()}, "exit": proc.returncode,
